@@ -244,7 +244,9 @@ def session_ops(lines, upto):
             ops.append({"op": "call", "p": ev["p"], "buf": ev["buf"]})
         elif e == "flat":
             ops.append({"op": "flat", "p": ev["p"], "buf": ev["buf"]})
-        elif e in ("parsed", "ret", "retbig", "toolcrash", "panic", "crash", "hang", "flatret", "struct"):
+        elif e == "struct":
+            ops.append({"op": "struct", "v": ev["v"], "hdr": ev["item"]["hdr"], "recs": ev["item"]["recs"]})
+        elif e in ("parsed", "ret", "retbig", "toolcrash", "panic", "crash", "hang", "flatret"):
             continue
         elif e in ("round", "note") and i < upto - 1 or e == "round":
             o = dict(ev)
